@@ -957,12 +957,67 @@ def dump_eq(d, v):
     return True
 
 
+# a variable the host registers again with another type (and stores a value of that type): scripts compiled afterwards - every one of
+# them, not only the first - see the new type and the stored value
+RETYPES = {   # name: (type major, value spec, a program that only compiles for that type, what it prints)
+    "boolean": (1, "b1", "print not X;", "FALSE\n"),
+    "integer": (2, "i5", "print X + 1;", "6\n"),
+    "decimal": (3, "d2.5", "print X * 2.0;", "5\n"),
+    "string": (4, "s" + b"abc".hex(), 'print X + "d";', "abcd\n"),
+    "bytes": (8, "x" + b"ab".hex(), "print X.count() X.at(0);", "297\n"),
+}
+RETYPE_BETWEEN = {"nothing": [], "script": ["y = 1; print y;"], "rejected": ["y = 1 +;"], "failing": ["y = 1 / 0;"], "uses-x": ["w = X; print isnull(w);"]}
+
+
+def retype_gen(tier):
+    def gen():
+        n = 0
+        for t1, (m1, v1, p1, o1) in RETYPES.items():
+            for t2, (m2, v2, p2, o2) in RETYPES.items():
+                if t1 == t2:
+                    continue
+                for bname, between in RETYPE_BETWEEN.items():
+                    ops = ["k.create 0", "k.new 0 %s" % v1, "k.reg 0 0 X %d 0" % m1, "k.store 0 0 0", "k.freeval 0"]
+                    runs = []
+
+                    def run(text):
+                        ops.extend(["k.pexe 0 0 %s 0" % hx(text), "k.exec 0", "k.freeexe 0", "k.out 0"])
+                        return len(ops) - 4
+                    runs.append((run(p1), o1, "first type"))
+                    for b in between:
+                        run(b)
+                    ops += ["k.new 0 %s" % v2, "k.reg 0 0 X %d 0" % m2, "k.store 0 0 0", "k.freeval 0"]
+                    runs.append((run(p2), o2, "second type, first script"))
+                    runs.append((run(p2), o2, "second type, second script"))
+                    runs.append((run("z = X; " + p2.replace("X", "z")), o2, "second type, copy"))
+                    ops += ["k.end", "leakcheck"]
+                    yield Case("rt%d" % n, ops, {"kind": "retype", "t1": t1, "t2": t2, "between": bname, "runs": runs})
+                    n += 1
+    return gen
+
+
+def check_retype(case, res, vs):
+    m = case.meta
+    st = res["steps"]
+    for at, want, what in m["runs"]:
+        pe, ex, out = st[at], st[at + 1], st[at + 3]
+        got = unhex(out.get("out", "")).decode("latin-1") if out.get("r") == "ok" else None
+        if pe.get("ptr") != 1 or ex.get("ret") != 1 or got != want:
+            vs.append(Violation("retype:%s" % what.replace(" ", "-").replace(",", ""), "X registered as %s then as %s (%s in between): the script for the %s gives parse %s / run %s / output %r, expected %r" % (
+                m["t1"], m["t2"], m["between"], what, {k: pe.get(k) for k in ("ptr", "strerror")}, {k: ex.get(k) for k in ("r", "ret", "strerror")}, got, want), case))
+    if st[-1].get("leak") not in (0, None):
+        vs.append(Violation("retype:leak", "memory remains allocated: %s" % st[-1].get("report", "")[:800], case))
+    return vs, True
+
+
 def check(case, res):
     vs = generic_safety(case, res)
     if res.get("st") != "done":
         return vs, True
     m = case.meta
     st = res["steps"]
+    if m["kind"] == "retype":
+        return check_retype(case, res, vs)
     if m["kind"] == "leak":
         vs = [v for v in vs if v.key != "leak"]      # reported below with the allocating site
         if st[4].get("ptr") == 1:
@@ -1090,6 +1145,7 @@ def check(case, res):
 def run(tier):
     t0 = time.time()
     res = explore(PROP + "-" + tier, gen_factory(tier), check, chunk=100, deadline=t0 + (3000 if tier == "thorough" else 420))
+    res.merge(explore(PROP + "-" + tier + "-retype", retype_gen(tier), check, chunk=50, deadline=t0 + 3300))
     rule = ("call sequences over %d operations (value creation of every type incl. NULL payloads, store/load, assign, inspection by every typed accessor, "
             "parse of %d valid and %d invalid texts with and without position request, execute / execute2 in a clone, drop_returned, break / reset_stop, "
             "parse / type / evaluate of %d expressions, clone, free, purge, purge_working_mem, register, find): all sequences of length <=2, %s; "
